@@ -57,7 +57,7 @@ func c18kinds(rng *rand.Rand, n int, allowAdds bool) []string {
 	return out
 }
 
-var c18Kinds = []string{"direct", "analytic", "cep", "tumbling", "sliding", "session", "counting", "global"}
+var c18Kinds = []string{"direct", "analytic", "cep", "tumbling", "sliding", "session", "counting", "global", "sliding-long", "tumbling-long"}
 
 var c18SQL = map[string]string{
 	"direct":   "SELECT id FROM stream",
@@ -68,13 +68,19 @@ var c18SQL = map[string]string{
 	"session":  "SELECT k, COUNT(*) AS c FROM stream GROUP BY k, SessionWindow('20ms')",
 	"counting": "SELECT COUNT(*) AS c FROM stream GROUP BY CountingWindow(3)",
 	"global":   "SELECT k, COUNT(*) AS c FROM stream GROUP BY k, GLOBAL WINDOW TRIGGER WHEN COUNT(*) >= 3",
+	// windows far longer than the run: whatever waits for a window end must be released by Stop, not by the window
+	"sliding-long":  "SELECT COUNT(*) AS c FROM stream GROUP BY SlidingWindow('60s','30s')",
+	"tumbling-long": "SELECT COUNT(*) AS c FROM stream GROUP BY TumblingWindow('60s')",
 }
 
 func (c18) Gen(rng *rand.Rand, tier string, idx int) Case {
 	var c Case
-	if tier == "thorough" && idx%10 == 9 {
-		// free-running stress over the eight query kinds (search only, DESIGN §3.5)
+	if (tier == "thorough" && idx%10 == 9) || (tier != "thorough" && idx%26 == 25) {
+		// free-running stress over the query kinds (search only, DESIGN §3.5); a few rounds in the quick tier too
 		kind := c18Kinds[(idx/10)%len(c18Kinds)]
+		if tier != "thorough" {
+			kind = c18Kinds[(idx/26)%len(c18Kinds)]
+		}
 		c.Cfg = [][]string{append([]string{"async"}, c18kinds(rng, rng.Intn(3), true)...),
 			append([]string{"sync"}, c18kinds(rng, 1+rng.Intn(2), true)...),
 			{"qcap", strconv.Itoa(1 + rng.Intn(3))}, {"calls", "0"}, {"adds", "0"},
@@ -328,7 +334,7 @@ func (r *c18run) op(op []string) [][]string {
 // c18free: one free-running round on the real scheduler. Producers, an EmitSync caller, AddSink,
 // GetStats and TriggerWindow callers run concurrently; two Stop calls start when half of the rows
 // are out; afterwards a few more calls are made. The log is ordered by a mutex.
-func c18free(c Case, kind string, n int) ([][]string, string) {
+func c18free(c Case, kind string, n int, base0 int) ([][]string, string) {
 	perf := types.DefaultPerformanceConfig()
 	perf.BufferConfig.DataChannelSize = 64
 	perf.BufferConfig.MaxBufferSize = 256
@@ -339,7 +345,17 @@ func c18free(c Case, kind string, n int) ([][]string, string) {
 	perf.OverflowConfig.BlockTimeout = 0
 	perf.WorkerConfig.SinkPoolSize = c19cfgInt(c, "qcap", 1)
 	perf.WorkerConfig.SinkWorkerCount = 2
+	if perf.OverflowConfig.Strategy == "block" {
+		// block without a timeout and a buffer of two: producers are parked inside Emit most of the time, also when
+		// Stop arrives — Stop must release them
+		perf.BufferConfig.DataChannelSize = 2
+	}
 	base := runtime.NumGoroutine()
+	if base0 >= 0 {
+		// a re-run after a suspected leak: measured against the count before the FIRST run — a goroutine that run
+		// left behind and that is still alive is still a leak
+		base = base0
+	}
 	ssql := streamsql.New(streamsql.WithDiscardLog(), streamsql.WithCustomPerformance(perf))
 	if err := ssql.Execute(c18SQL[kind]); err != nil {
 		return [][]string{{"execute-error"}}, "execute-error"
@@ -443,7 +459,18 @@ func c18free(c Case, kind string, n int) ([][]string, string) {
 	// both Stop calls have returned: from here on no sink may run
 	add("th", "s0", "stop.flag")
 	add("th", "s0", "fin")
-	wg.Wait()
+	released := make(chan struct{})
+	go func() { wg.Wait(); close(released) }()
+	select {
+	case <-released:
+	case <-time.After(8 * time.Second):
+		// a caller is still inside the instance long after Stop returned (e.g. a producer parked in Emit for good)
+		add("stuck", "caller-still-inside-after-stop")
+		mu.Lock()
+		out := append([][]string{}, log...)
+		mu.Unlock()
+		return out, "deadlock"
+	}
 	for i := 0; i < 3; i++ {
 		id := 2 * (3*n + i)
 		add("emit", strconv.Itoa(id))
@@ -487,13 +514,14 @@ func c18free(c Case, kind string, n int) ([][]string, string) {
 func (c18) Exec(c Case) [][][]string {
 	if len(c.Ops) == 1 && len(c.Ops[0]) == 3 && c.Ops[0][0] == "free" {
 		n, _ := strconv.Atoi(c.Ops[0][2])
-		out, why := c18free(c, c.Ops[0][1], n)
+		base0 := runtime.NumGoroutine()
+		out, why := c18free(c, c.Ops[0][1], n, -1)
 		if why == "" {
 			return [][][]string{out}
 		}
 		// a failure seen free-running counts only if it reproduces 3 of 3 times with the same input
 		for i := 0; i < 2; i++ {
-			o2, w2 := c18free(c, c.Ops[0][1], n)
+			o2, w2 := c18free(c, c.Ops[0][1], n, base0)
 			if w2 == "" {
 				return [][][]string{append([][]string{{"anomaly-unreproduced", why}}, o2...)}
 			}
